@@ -10,3 +10,9 @@ package reflect
 //@   ensures ok == rootHas(v, fieldName)
 //@   ensures ok ==> r == rootGet(v, fieldName)
 //@   ensures !ok ==> r == nil
+
+//@ func PopulateStructFields(result, data)
+//@   trusted
+//@   modifies contents(result)
+//@   ensures forall k string :: ((k in result) == (old(k in result) || rootHas(data, k))) &&
+//@     (rootHas(data, k) ==> result[k] == rootGet(data, k)) && (!rootHas(data, k) ==> result[k] == old(result[k]))
